@@ -1,4 +1,40 @@
 import PeptVerif.Model.Proto
-/-! driver for C08 (placeholder: replies bad-op to everything until the model is written) -/
-def step (_line : String) : String := "bad-op"
-def main : IO Unit := Proto.runDriver step
+import PeptVerif.Model.Effects
+import PeptVerif.Model.EffectsApi
+import PeptVerif.Generated.Effects
+/-! driver for C08: the verdict of the effect analysis per API member, so that the harness can compare it with what it observes
+
+  verdict<TAB>name      -> writes=<param names>|globals=<global names>|editor=0/1|random=0/1|closed=0/1|recheck=same/diff
+  outside               -> comma separated names declared outside
+  count                 -> number of analysed functions -/
+open Proto Effects
+
+def paramName (e : Gen.ApiEntry) (j : Nat) : String := e.params.getD j s!"#{j}"
+
+def verdictOf (e : Gen.ApiEntry) : String :=
+  match Gen.fns[e.fid]? with
+  | none => "unknown"
+  | some i =>
+    let w := mayWriteIn Gen.summaries i.prog i.table
+    let g := mayWriteGlobalIn Gen.summaries i.prog i.table
+    let closed := closedB Gen.summaries i.prog i.table
+    -- independent recomputation of the table by the Lean analysis itself (compiled), two passes beyond the translator's count
+    let w2 := mayWrite Gen.summaries i.prog (i.fuel + 2)
+    let g2 := mayWriteGlobal Gen.summaries i.prog (i.fuel + 2)
+    let ok2 := analysisOK Gen.summaries i.prog (i.fuel + 2)
+    let same := ok2 && w.all (w2.contains ·) && w2.all (w.contains ·) && g.all (g2.contains ·) && g2.all (g.contains ·)
+    s!"writes={",".intercalate (w.map (paramName e))}|globals={",".intercalate (g.map (fun k => Gen.globalNames.getD k (toString k)))}" ++
+    s!"|editor={if e.editor then 1 else 0}|random={if e.random then 1 else 0}|closed={if closed then 1 else 0}" ++
+    s!"|recheck={if same then "same" else "diff"}"
+
+def step (line : String) : String :=
+  match splitTab line with
+  | ["verdict", name] =>
+    match Gen.api.find? (fun e => e.name == name) with
+    | some e => verdictOf e
+    | none => "unknown"
+  | ["outside"] => ",".intercalate declaredOutside
+  | ["count"] => toString Gen.fns.length
+  | _ => "bad-op"
+
+def main : IO Unit := runDriver step
